@@ -78,6 +78,8 @@ def new_sp_of(scn):
         return None
     if scn["dest"] == "collide":
         return dict(SP_B)
+    if scn["dest"] == "same":          # an assignment that does not change the id: _save returns before any step
+        return dict(SP_A)
     sp = dict(SP_A)
     if scn.get("route") == "update":
         sp["z"] = 7
@@ -181,7 +183,7 @@ def prepare(scn, root):
         if scn.get("route") == "update":
             upd = {k: v for k, v in nsp.items() if SP_A.get(k, None) != v}
             return (lambda: job.update_statepoint(upd, overwrite=True)), job
-        (k, v), = [(k, v) for k, v in nsp.items() if SP_A.get(k) != v]
+        (k, v), = [(k, v) for k, v in nsp.items() if SP_A.get(k) != v] or [("a", SP_A["a"])]
         return (lambda: job.sp.__setitem__(k, v)), job
     if op == "move":
         return (lambda: job.move(pb)), job
@@ -526,6 +528,11 @@ def run_scenario(desc, work):
                     plan.append((s, n, "EIO"))
                     if (j + pick[1]) % 3 == 0:
                         plan.append((s, n, ERRNOS[1 + (j + pick[0]) % (len(ERRNOS) - 1)][0]))
+                # every rename of the run fails once with EXDEV (the errno that is specific to rename / os.replace and
+                # has a branch of its own in Job.move)
+                for (s, n, _) in events:
+                    if s[0] == "SgRename":
+                        plan.append((s, n, "EXDEV"))
                 plan = list(dict.fromkeys(plan))
         elif "fault" in probe:
             f = probe["fault"]
@@ -698,6 +705,8 @@ def scenarios():
         for dest in ("fresh", "collide") + (("emptydir",) if thr else ()):
             out.append({"op": "rekey", "dest": dest, "route": "assign", "threads": thr})
         out.append({"op": "rekey", "dest": "fresh", "route": "setitem", "threads": thr, "payload": False})
+        if thr:
+            out.append({"op": "rekey", "dest": "same", "route": "setitem", "threads": thr})
         for op in ("move", "clone"):
             for dest in ("fresh", "collide", "emptydir"):
                 out.append({"op": op, "dest": dest, "threads": thr})
